@@ -732,8 +732,12 @@ func jsonFields(t reflect.Type) []jsonField {
 	var candidates []candidate
 	visited := map[reflect.Type]bool{}
 	current := []level{{typ: t}}
+	// count / nextCount: how many times an embedded struct type is reached at the current / next depth
+	// (encoding/json: a type reached by several paths at one depth makes every field of it ambiguous).
+	var count, nextCount map[reflect.Type]int
 	for len(current) > 0 {
 		var next []level
+		count, nextCount = nextCount, map[reflect.Type]int{}
 		for _, l := range current {
 			if visited[l.typ] {
 				continue
@@ -761,15 +765,23 @@ func jsonFields(t reflect.Type) []jsonField {
 				tagName := strings.Split(tag, ",")[0]
 				index := append(append([]int{}, l.index...), i)
 				if tagName != "" || !sf.Anonymous || ft.Kind() != reflect.Struct {
-					candidates = append(candidates, candidate{
+					c := candidate{
 						field:  jsonField{StructField: sf, viaPointer: l.viaPointer},
 						name:   getJSONFieldName(sf),
 						tagged: tagName != "",
 						index:  index,
-					})
+					}
+					candidates = append(candidates, c)
+					if count[l.typ] > 1 {
+						// reached by several paths at this depth: the field ties with itself and is dropped below
+						candidates = append(candidates, c)
+					}
 					continue
 				}
-				next = append(next, level{typ: ft, index: index, viaPointer: l.viaPointer || viaPointer})
+				nextCount[ft]++
+				if nextCount[ft] == 1 {
+					next = append(next, level{typ: ft, index: index, viaPointer: l.viaPointer || viaPointer})
+				}
 			}
 		}
 		current = next
